@@ -34,12 +34,14 @@ class Sink(PartHandler):
                  upstream = None,
                  cycle_time = 0,
                  collect_parts = False):
-        super().__init__(name, upstream, cycle_time = cycle_time, value = 0)
-
         self._collect_parts = collect_parts
         self.collected_parts = []
         self._received_parts_count = 0
         self._value_of_received_parts = 0
+        # Fields are set before the base constructor because it will
+        # initialize the Asset right away if the simulation is already
+        # running.
+        super().__init__(name, upstream, cycle_time = cycle_time, value = 0)
 
     def _add_downstream(self, downstream):
         raise RuntimeError('Sink cannot have any downstreams.')
